@@ -63,9 +63,22 @@ def KeyKind.valid : KeyKind → Bytes → Bool
   | .uint w, bs => bs.length == w
   | .sint w, bs => bs.length == w
 
+/-- (length, numeric value): the rank that orders integer keys -/
+def pairLt (p q : Nat × Int) : Prop := p.1 < q.1 ∨ (p.1 = q.1 ∧ p.2 < q.2)
+
+instance : DecidableRel pairLt := fun p q => by unfold pairLt; exact inferInstance
+
+/-- the key type's `Ord`, transported to the encoding.  For integer kinds this is the numeric
+    order on keys of the kind's width — the only keys an index of that kind can hold; it is
+    extended to byte strings of other lengths (length first, bytes last) so that it is a strict
+    total order on ALL byte strings (Proofs/KeyOrder: `keyOrder_strict`). -/
 def KeyKind.lt : KeyKind → Bytes → Bytes → Bool
-  | .uint _, a, b => leNat a < leNat b
-  | .sint _, a, b => signedVal a < signedVal b
+  | .uint _, a, b =>
+    if pairLt (a.length, (leNat a : Int)) (b.length, (leNat b : Int)) then true
+    else if pairLt (b.length, (leNat b : Int)) (a.length, (leNat a : Int)) then false else bytesLt a b
+  | .sint _, a, b =>
+    if pairLt (a.length, signedVal a) (b.length, signedVal b) then true
+    else if pairLt (b.length, signedVal b) (a.length, signedVal a) then false else bytesLt a b
   | _, a, b => bytesLt a b
 
 end CasModel
